@@ -64,7 +64,7 @@ def run(ctx, rep, tier):
               "an action that no match adopted is refused", "orphan action nodes are no longer refused")
     # loop back-edge is a fallthrough only from accept states' error transitions / empty accept states
     lc = ast.unparse(model.func("LoopNode.convert"))
-    rep.check("trans.handles_else(False).fallthrough().to(sub_dfa.starting_state).attach(*self.loop_start_actions)" in lc and "if trans.error_handling:" in lc, "C04.b", "LoopNode.convert",
+    rep.check(model.has("LoopNode.convert", "trans.handles_else(False).fallthrough().to(sub_dfa.starting_state).attach(*self.loop_start_actions)") and model.has("LoopNode.convert", "if trans.error_handling:"), "C04.b", "LoopNode.convert",
               "loop back-edge: only the end states' no-match transitions are redirected to the body start", "loop back-edge construction changed")
 
     # ------------------------------------------------------------------ C04.c handler never handles its own body
